@@ -236,8 +236,8 @@ Section FrameSteps.
     - (* HD2 *) pose proof (bottom_alone _ _ S1) as Hr. cbn in Hr. subst rest. inv_step H.
       apply invT_S1; [exact Hwf|exact IT|]; intros q _; loc_mono E.
     - (* HD3 *) pose proof (bottom_alone _ _ S1) as Hr. cbn in Hr. subst rest. inv_step H.
-      + apply invT_S1; [exact Hwf|exact IT|]; intros q _; loc_mono E.
-      + apply invT_S2; [exact Hwf|exact IT|intros q Hq _; loc_mono E|]. intros T. left. split; [exact T|loc_mono E].
+      all: try (apply invT_S1; [exact Hwf|exact IT|]; intros q _; loc_mono E; fail).
+      apply invT_S2; [exact Hwf|exact IT|intros q Hq _; loc_mono E|]. intros T. left. split; [exact T|loc_mono E].
     - (* HD4 *) pose proof (bottom_alone _ _ S1) as Hr. cbn in Hr. subst rest. inv_step H.
       apply invT_S3; [exact Hwf|exact IT|]; intros q _; loc_mono E.
   Qed.
